@@ -15,6 +15,9 @@ use std::sync::atomic::{AtomicBool, Ordering};
 
 static TRIPPED: AtomicBool = AtomicBool::new(false);
 
+/// scheduling decisions of the most recent runs (read by the exhaustive schedule enumerator)
+pub static LAST_DECISIONS: std::sync::Mutex<Vec<Vec<(u8, u8)>>> = std::sync::Mutex::new(Vec::new());
+
 /// Instrumented by-value source iterator.
 pub struct SrcIter {
     finite: Option<std::vec::IntoIter<E>>,
@@ -379,6 +382,12 @@ pub fn run_case(case: &Case) -> RunResult {
         }
     }));
     let sched_rep = sched::end_case();
+    {
+        let mut l = LAST_DECISIONS.lock().unwrap_or_else(|e| e.into_inner());
+        if l.len() < 8 {
+            l.push(sched_rep.decisions.clone());
+        }
+    }
     let out = match result {
         Ok(o) => Ok(o),
         Err(payload) => {
